@@ -4,6 +4,7 @@
 // Event: {"id":line,"k":kind,"op":op,"t":type,"imm":n,"a":[bytes],...,"r":[bytes],"w":regbytes|0,"archs":[...]}
 // "w" is present (non-zero) only for register-granular kinds, where the result depends on the register width.
 #include "vd.hpp"
+#include "sweep.hpp"
 #include <csetjmp>
 #include <csignal>
 #include <cstdio>
@@ -74,6 +75,8 @@ int main(int argc, char** argv)
                 printf("%s %d %s %s %s\n", t.name.c_str(), t.regbytes, e.kind, e.op, e.type);
         return 0;
     }
+    if (argc >= 2 && std::string(argv[1]) == "--sweep")
+        return sweep::run(argc, argv);
     FILE* in = argc >= 2 ? fopen(argv[1], "r") : stdin;
     FILE* out = argc >= 3 ? fopen(argv[2], "w") : stdout;
     long watchdog_ms = argc >= 4 ? atol(argv[3]) : 0;
